@@ -197,7 +197,23 @@ pub fn mutate(rng: &mut Rng, b: &Base, m: usize) -> (Vec<u8>, String) {
         8 => {
             // header damage
             match rng.below(6) {
-                0 => w[0] = MAGIC.swap_bytes(),
+                0 => {
+                    // the other byte order: only the magic number, or every word of the module (what a
+                    // big-endian producer writes), optionally cut at an arbitrary byte
+                    if rng.chance(1, 2) {
+                        w[0] = MAGIC.swap_bytes();
+                    } else {
+                        for x in w.iter_mut() {
+                            *x = x.swap_bytes();
+                        }
+                        let mut bytes = to_bytes(&w);
+                        if rng.chance(1, 2) {
+                            let cut = rng.below(bytes.len() + 1);
+                            bytes.truncate(cut);
+                        }
+                        return (bytes, "module in the other byte order (possibly truncated)".to_string());
+                    }
+                }
                 1 => w[0] = rng.u32(),
                 2 => w[0] ^= 1 << rng.below(32),
                 3 => {
